@@ -209,6 +209,34 @@ def decide(prop, tier='quick', seed=0, units=None, jobs=8, quiet=False):
         rc = 2
         for u in undecided:
             lines.append('UNDECIDED property=%s %s' % (prop, u))
+    thorough = {}
+    if tier == 'thorough':
+        # (a) proof stability: the same units under two more Z3 seeds
+        stab = []
+        for sd in (int(seed or 0) + 101, int(seed or 0) + 202):
+            with cf.ThreadPoolExecutor(max_workers=jobs) as ex:
+                rs = list(ex.map(lambda u: R.run_unit(u, gen_dir, None, sd), units))
+            stab.append(dict(seed=sd, units={r_.unit: r_.status for r_ in rs},
+                             failed_obligations=sorted(set(fl.oid for r_ in rs for fl in r_.failures if prop in fl.props and not any(k.get('obligation_match') and re.search(k['obligation_match'], fl.oid) for k in known_ids.values())))))
+        thorough['proof_stability'] = stab
+        if rc == 0 and any(s_['failed_obligations'] for s_ in stab):
+            rc = 2
+            lines.append('UNDECIDED property=%s unstable proof: fails under another solver seed: %s' % (prop, [s_['failed_obligations'] for s_ in stab if s_['failed_obligations']][0][:3]))
+        # (b) replays of the known findings of this property against the real code
+        try:
+            from . import kani as K
+            if known_ids:
+                thorough['known_finding_replays'] = K.run_known_replays(sorted(known_ids))
+            # (c) Kani cross-check (complete for the instance) of the RaftLogState contracts
+            if prop in ('C01', 'C06', 'C16'):
+                kr = K.run_all_harnesses()
+                thorough['kani_harnesses'] = dict(results=kr, kind='loop-free, full-domain symbolic inputs: complete for LogId=Vote=(u64,u64); k_next_log_index is EXPECTED to fail (known finding D6)')
+                bad = [h for h, v in kr.items() if not v.startswith('SUCCESSFUL') and h != 'k_next_log_index']
+                if bad and rc == 0:
+                    rc = 2
+                    lines.append('UNDECIDED property=%s Kani disagrees with the proved contract in: %s' % (prop, bad))
+        except Exception as e:
+            thorough['secondary_engine_error'] = repr(e)[:300]
     wall = time.time() - t0
     os.makedirs(EVID_DIR, exist_ok=True)
     ev = dict(
@@ -228,6 +256,7 @@ def decide(prop, tier='quick', seed=0, units=None, jobs=8, quiet=False):
             vacuity_guard=dict(rule='for every function under contract with preconditions, a twin with the same signature and preconditions and body `assert(false)` must FAIL to verify', twins_checked=reach_checked, vacuous=reach_vacuous),
             samples=samples or [dict(note='no tagged ensures clause; see functions_under_contract')],
             exhaustive=False,
+            **thorough,
         ),
         assumptions=assumptions + [k['what'] for k in []],
         wall_s=round(wall, 2),
